@@ -43,6 +43,7 @@ type Case struct {
 	Seq        []Req // sequential repeats after completion
 	FailGet    int   // n-th Storage.Get fails (0 = none)
 	FailSet    int   `json:",omitempty"` // n-th Storage.Set fails: the answer of a completed execution cannot be recorded
+	Garble     int   `json:",omitempty"` // n-th and n+1-th Storage.Get hand out a cut-off record without an error (0 = none)
 	FailLock   int   // n-th Lock fails (0 = none)
 	FailSerial []int // handler executions (by serial) that return an error
 	Memory     bool  // default in-memory storage + MemoryLock without yield points (only the handler yields)
@@ -127,6 +128,9 @@ func check(c Case) vk.Verdict {
 		st.Retain = c.Retain
 		if c.FailGet > 0 {
 			st.FailGet = map[int]bool{c.FailGet: true}
+		}
+		if c.Garble > 0 {
+			st.GarbleGet = map[int]bool{c.Garble: true, c.Garble + 1: true}
 		}
 		if c.FailSet > 0 {
 			st.FailSet = map[int]bool{c.FailSet: true}
@@ -278,7 +282,7 @@ func check(c Case) vk.Verdict {
 		pi++
 		return p
 	})
-	ctxs := fmt.Sprintf("concurrent %+v then %+v (split=%v keep=%v keepNil=%v failGet=%d failSet=%d failLock=%d failSerial=%v memory=%v)\nschedule: %v", c.Conc, c.Seq, c.Split, c.Keep, c.KeepNil, c.FailGet, c.FailSet, c.FailLock, c.FailSerial, c.Memory, s.Trace)
+	ctxs := fmt.Sprintf("concurrent %+v then %+v (split=%v keep=%v keepNil=%v failGet=%d garble=%d failSet=%d failLock=%d failSerial=%v memory=%v)\nschedule: %v", c.Conc, c.Seq, c.Split, c.Keep, c.KeepNil, c.FailGet, c.Garble, c.FailSet, c.FailLock, c.FailSerial, c.Memory, s.Trace)
 	if len(res.Panics) > 0 {
 		return vk.Failf("%s\npanic: %s", ctxs, res.Panics[0])
 	}
@@ -325,6 +329,7 @@ func check(c Case) vk.Verdict {
 			faultsTriggered++
 			setFaultHit = true
 		}
+		faultsTriggered += st.Garbled // an undecodable record is a failed lookup
 	}
 	faultsTriggered += lk.hit
 	n500 := 0
@@ -454,6 +459,9 @@ func genCase(t *rapid.T) Case {
 		c.Retain = rapid.IntRange(0, 2).Draw(t, "retain") == 0
 		if rapid.IntRange(0, 2).Draw(t, "getfault") == 0 {
 			c.FailGet = rapid.IntRange(1, 8).Draw(t, "gf")
+		}
+		if c.FailGet == 0 && rapid.IntRange(0, 3).Draw(t, "garble") == 0 {
+			c.Garble = rapid.IntRange(2, 8).Draw(t, "gg")
 		}
 		if rapid.IntRange(0, 3).Draw(t, "setfault") == 0 {
 			c.FailSet = rapid.IntRange(1, 3).Draw(t, "sf")
